@@ -353,6 +353,15 @@ Theorem ingest_two_refs_share_artifact : forall s d1 d2 r k s', step s (Ingest d
 Proof. exact ingest_ok_l. Qed.
 Print Assumptions ingest_two_refs_share_artifact.
 
+(* A dataset stored by Butler.transfer_from (records written in REPLACE mode, location row by bridge.ensure) is held exactly like one
+   stored by put: RECORDED | DATASTORE | _ARTIFACT, a location row, its run exists -- and the registry refuses to forget it.  (Seed C10c
+   dropped the location row of REPLACE-mode inserts.)  Every removal theorem above is about states, so it covers transferred datasets. *)
+Theorem transferred_dataset_is_held : forall s d r k s', step s (Xfer d r k) = (s', Ok) -> has_rec s d = false ->
+  exists_flags s' d = (true, true, true) /\ located s' d = true /\ rec_path s' d = Some (r, k) /\ ctype s' r = Some Run /\
+  (forall l, In d l -> step s' (RegRemove l) = (s', Err Orphaned)).
+Proof. exact xfer_held_l. Qed.
+Print Assumptions transferred_dataset_is_held.
+
 (* ---------- non-vacuity ---------- *)
 Definition demo : list op :=
   [RegColl 0 Run; RegColl 1 Run; RegColl 2 Tagged; RegColl 4 Calib; Put 0 0 0; Put 1 0 1; Put 2 1 0; Tag 2 [0; 1];
@@ -395,3 +404,9 @@ Proof. vm_compute. repeat split; reflexivity. Qed.
 Example demo_stale_standalone_trash : let s := run_hist stale_trash_history in
   In 0 (loc s) /\ In 0 (trash s) /\ exec s (Trash [0; 1]) = s /\ exec s (Trash1 0) = s.
 Proof. vm_compute. repeat split; try reflexivity; left; reflexivity. Qed.
+
+Example demo_xfer : let s := run_hist [Xfer 0 0 0; RegColl 2 Tagged; Tag 2 [0]] in
+  hist_safe init [Xfer 0 0 0; RegColl 2 Tagged; Tag 2 [0]] = true /\ ctype s 0 = Some Run /\ exists_flags s 0 = (true, true, true) /\
+  snd (step s (RegRemove [0])) = Err Orphaned /\ exec s (Xfer 0 0 0) = s /\ snd (step s (Xfer 0 2 0)) = Err CollType /\
+  exists_flags (exec s (Prune [0] true true true [])) 0 = (false, false, false) /\ files (exec s (RemoveRuns [0] true)) = [].
+Proof. vm_compute. repeat split; reflexivity. Qed.
